@@ -296,6 +296,15 @@ def run(ctx: fw.Ctx):
         ("rec {\n  a = v;\n  v = \"1\";\n}\n", [("set", "a", '"N1"'), ("rm", "v"), ("set", "a", '"N2"')]),
         ("let\n  v = \"0\";\nin\n{\n  a = v;\n}\n", [("set", "a", '"N1"'), ("set", "@v", '"9"'), ("rm", "@v"), ("set", "a", '"N2"')]),
         ("rec {\n  a = b;\n  b = c;\n  c = \"3\";\n}\n", [("set", "a", '"N1"'), ("set", "b", '"mid"'), ("set", "a", '"N2"')]),
+        # positions inside a layer change between edits (a binding before the referenced one is removed / added)
+        ("let\n  u = \"0\";\n  v = \"1\";\n  w = \"2\";\nin\n{\n  a = v;\n  b = w;\n}\n",
+         [("set", "a", '"N1"'), ("rm", "@u"), ("set", "a", '"N2"'), ("set", "b", '"N3"')]),
+        ("let\n  u = \"0\";\n  v = \"1\";\n  w = \"2\";\nin\n{\n  a = v;\n  b = w;\n}\n",
+         [("set", "b", '"N1"'), ("rm", "@v"), ("set", "b", '"N2"'), ("set", "@t", '"9"'), ("rm", "@u"), ("set", "b", '"N3"')]),
+        ("let\n  m.tag = \"0\";\n  v = \"1\";\n  w = \"2\";\nin\n{\n  a = w;\n}\n",
+         [("set", "a", '"N1"'), ("rm", "@m.tag"), ("set", "a", '"N2"')]),
+        ("let\n  u = \"0\";\nin\nlet\n  p = \"0\";\n  v = \"1\";\n  w = v;\nin\nrec {\n  a = w;\n}\n",
+         [("set", "a", '"N1"'), ("rm", "@p"), ("set", "a", '"N2"')]),
     ]:
         hists.append(ec.run_real(text, ops, {"wrapper": "bare", "history": True}))
     stride, nrand = (11, 500) if ctx.quick else (1, 8000)
